@@ -1,6 +1,383 @@
 //! Script interpreter: JSON descriptions of builder-API call sequences executed against the real crate.
+//! The same grammar is interpreted over the crate's MIR by /verif/props/sq.py.
+#![allow(clippy::all)]
+use sea_query::extension::postgres::PgBinOper;
+use sea_query::extension::sqlite::SqliteBinOper;
+use sea_query::*;
 use serde_json::{json, Value as J};
 
-pub fn handle(op: &str, _req: &J) -> J {
-    json!({"error": format!("unknown op {op}")})
+pub fn cps(s: &str) -> J {
+    J::Array(s.chars().map(|c| json!(c as u32)).collect())
+}
+
+pub fn jstring(j: &J) -> String {
+    match j {
+        J::String(s) => s.clone(),
+        J::Object(o) => o["cps"]
+            .as_array()
+            .unwrap()
+            .iter()
+            .map(|c| char::from_u32(c.as_u64().unwrap() as u32).expect("scalar value"))
+            .collect(),
+        J::Array(a) => a
+            .iter()
+            .map(|c| char::from_u32(c.as_u64().unwrap() as u32).expect("scalar value"))
+            .collect(),
+        _ => panic!("not a string: {j}"),
+    }
+}
+
+fn leak(s: String) -> &'static str {
+    Box::leak(s.into_boxed_str())
+}
+
+pub fn iden(j: &J) -> DynIden {
+    SeaRc::new(Alias::new(jstring(j)))
+}
+
+pub fn value(j: &J) -> Value {
+    let t = j["t"].as_str().unwrap();
+    let v = &j["v"];
+    let null = v.is_null();
+    macro_rules! int {
+        ($variant:ident, $ty:ty) => {
+            Value::$variant(if null { None } else { Some(v.as_i64().map(|x| x as $ty).unwrap_or_else(|| v.as_u64().unwrap() as $ty)) })
+        };
+    }
+    match t {
+        "Bool" => Value::Bool(if null { None } else { Some(v.as_bool().unwrap()) }),
+        "TinyInt" => int!(TinyInt, i8),
+        "SmallInt" => int!(SmallInt, i16),
+        "Int" => int!(Int, i32),
+        "BigInt" => int!(BigInt, i64),
+        "TinyUnsigned" => int!(TinyUnsigned, u8),
+        "SmallUnsigned" => int!(SmallUnsigned, u16),
+        "Unsigned" => int!(Unsigned, u32),
+        "BigUnsigned" => int!(BigUnsigned, u64),
+        "Float" => Value::Float(if null { None } else { Some(f32::from_bits(v.as_u64().unwrap() as u32)) }),
+        "Double" => Value::Double(if null { None } else { Some(f64::from_bits(v.as_u64().unwrap())) }),
+        "String" => Value::String(if null { None } else { Some(Box::new(jstring(v))) }),
+        "Char" => Value::Char(if null { None } else { Some(char::from_u32(v.as_u64().unwrap() as u32).unwrap()) }),
+        "Bytes" => Value::Bytes(if null {
+            None
+        } else {
+            Some(Box::new(v.as_array().unwrap().iter().map(|b| b.as_u64().unwrap() as u8).collect()))
+        }),
+        _ => panic!("value type {t}"),
+    }
+}
+
+pub fn value_json(v: &Value) -> J {
+    match v {
+        Value::Bool(x) => json!({"t": "Bool", "v": x}),
+        Value::TinyInt(x) => json!({"t": "TinyInt", "v": x}),
+        Value::SmallInt(x) => json!({"t": "SmallInt", "v": x}),
+        Value::Int(x) => json!({"t": "Int", "v": x}),
+        Value::BigInt(x) => json!({"t": "BigInt", "v": x}),
+        Value::TinyUnsigned(x) => json!({"t": "TinyUnsigned", "v": x}),
+        Value::SmallUnsigned(x) => json!({"t": "SmallUnsigned", "v": x}),
+        Value::Unsigned(x) => json!({"t": "Unsigned", "v": x}),
+        Value::BigUnsigned(x) => json!({"t": "BigUnsigned", "v": x}),
+        Value::Float(x) => json!({"t": "Float", "v": x.map(|f| f.to_bits())}),
+        Value::Double(x) => json!({"t": "Double", "v": x.map(|f| f.to_bits())}),
+        Value::String(x) => json!({"t": "String", "v": x.as_ref().map(|s| cps(s))}),
+        Value::Char(x) => json!({"t": "Char", "v": x.map(|c| c as u32)}),
+        Value::Bytes(x) => json!({"t": "Bytes", "v": x.as_ref().map(|b| b.iter().map(|y| *y as u32).collect::<Vec<_>>())}),
+        #[allow(unreachable_patterns)]
+        _ => json!({"t": "other"}),
+    }
+}
+
+pub fn binoper(j: &J) -> BinOper {
+    let n = j.as_str().unwrap();
+    if let Some(p) = n.strip_prefix("pg:") {
+        return BinOper::PgOperator(match p {
+            "ILike" => PgBinOper::ILike,
+            "NotILike" => PgBinOper::NotILike,
+            "Matches" => PgBinOper::Matches,
+            "Contains" => PgBinOper::Contains,
+            "Contained" => PgBinOper::Contained,
+            "Concatenate" => PgBinOper::Concatenate,
+            "Overlap" => PgBinOper::Overlap,
+            "Similarity" => PgBinOper::Similarity,
+            "WordSimilarity" => PgBinOper::WordSimilarity,
+            "StrictWordSimilarity" => PgBinOper::StrictWordSimilarity,
+            "SimilarityDistance" => PgBinOper::SimilarityDistance,
+            "WordSimilarityDistance" => PgBinOper::WordSimilarityDistance,
+            "StrictWordSimilarityDistance" => PgBinOper::StrictWordSimilarityDistance,
+            "GetJsonField" => PgBinOper::GetJsonField,
+            "CastJsonField" => PgBinOper::CastJsonField,
+            "Regex" => PgBinOper::Regex,
+            "RegexCaseInsensitive" => PgBinOper::RegexCaseInsensitive,
+            _ => panic!("pg oper {p}"),
+        });
+    }
+    if let Some(p) = n.strip_prefix("sqlite:") {
+        return BinOper::SqliteOperator(match p {
+            "Glob" => SqliteBinOper::Glob,
+            "Match" => SqliteBinOper::Match,
+            "GetJsonField" => SqliteBinOper::GetJsonField,
+            "CastJsonField" => SqliteBinOper::CastJsonField,
+            _ => panic!("sqlite oper {p}"),
+        });
+    }
+    if let Some(p) = n.strip_prefix("custom:") {
+        return BinOper::Custom(leak(p.to_string()));
+    }
+    match n {
+        "And" => BinOper::And,
+        "Or" => BinOper::Or,
+        "Like" => BinOper::Like,
+        "NotLike" => BinOper::NotLike,
+        "Is" => BinOper::Is,
+        "IsNot" => BinOper::IsNot,
+        "In" => BinOper::In,
+        "NotIn" => BinOper::NotIn,
+        "Between" => BinOper::Between,
+        "NotBetween" => BinOper::NotBetween,
+        "Equal" => BinOper::Equal,
+        "NotEqual" => BinOper::NotEqual,
+        "SmallerThan" => BinOper::SmallerThan,
+        "GreaterThan" => BinOper::GreaterThan,
+        "SmallerThanOrEqual" => BinOper::SmallerThanOrEqual,
+        "GreaterThanOrEqual" => BinOper::GreaterThanOrEqual,
+        "Add" => BinOper::Add,
+        "Sub" => BinOper::Sub,
+        "Mul" => BinOper::Mul,
+        "Div" => BinOper::Div,
+        "Mod" => BinOper::Mod,
+        "BitAnd" => BinOper::BitAnd,
+        "BitOr" => BinOper::BitOr,
+        "LShift" => BinOper::LShift,
+        "RShift" => BinOper::RShift,
+        "As" => BinOper::As,
+        "Escape" => BinOper::Escape,
+        _ => panic!("binoper {n}"),
+    }
+}
+
+pub fn colref(j: &J) -> ColumnRef {
+    let a = j.as_array().unwrap();
+    match a[0].as_str().unwrap() {
+        "col" => ColumnRef::Column(iden(&a[1])),
+        "tcol" => ColumnRef::TableColumn(iden(&a[1]), iden(&a[2])),
+        "stcol" => ColumnRef::SchemaTableColumn(iden(&a[1]), iden(&a[2]), iden(&a[3])),
+        "aster" => ColumnRef::Asterisk,
+        "taster" => ColumnRef::TableAsterisk(iden(&a[1])),
+        k => panic!("colref {k}"),
+    }
+}
+
+pub fn exprs(j: &J) -> Vec<SimpleExpr> {
+    j.as_array().unwrap().iter().map(expr).collect()
+}
+
+pub fn expr(j: &J) -> SimpleExpr {
+    let a = j.as_array().unwrap();
+    let k = a[0].as_str().unwrap();
+    match k {
+        "col" | "tcol" | "stcol" | "aster" | "taster" => SimpleExpr::Column(colref(j)),
+        "val" => SimpleExpr::Value(value(&a[1])),
+        "const" => SimpleExpr::Constant(value(&a[1])),
+        "vals" => SimpleExpr::Values(a[1].as_array().unwrap().iter().map(value).collect()),
+        "kw" => SimpleExpr::Keyword(match a[1].as_str().unwrap() {
+            "Null" => Keyword::Null,
+            "CurrentDate" => Keyword::CurrentDate,
+            "CurrentTime" => Keyword::CurrentTime,
+            "CurrentTimestamp" => Keyword::CurrentTimestamp,
+            x => panic!("keyword {x}"),
+        }),
+        "ckw" => SimpleExpr::Keyword(Keyword::Custom(iden(&a[1]))),
+        "bin" => SimpleExpr::Binary(Box::new(expr(&a[2])), binoper(&a[1]), Box::new(expr(&a[3]))),
+        "un" => SimpleExpr::Unary(UnOper::Not, Box::new(expr(&a[2]))),
+        "cust" => SimpleExpr::Custom(jstring(&a[1])),
+        "custv" => Expr::cust_with_values(jstring(&a[1]), a[2].as_array().unwrap().iter().map(value).collect::<Vec<Value>>()),
+        "custe" => Expr::cust_with_exprs(jstring(&a[1]), exprs(&a[2])),
+        "tuple" => SimpleExpr::Tuple(exprs(&a[1])),
+        "asenum" => SimpleExpr::AsEnum(iden(&a[1]), Box::new(expr(&a[2]))),
+        "func" => SimpleExpr::FunctionCall(func(a[1].as_str().unwrap(), &a[2])),
+        "case" => {
+            let mut cs = CaseStatement::new();
+            for p in a[1].as_array().unwrap() {
+                cs = cs.case(cond(&p[0]), expr(&p[1]));
+            }
+            if a.len() > 2 && !a[2].is_null() {
+                cs = cs.finally(expr(&a[2]));
+            }
+            cs.into()
+        }
+        "subq" => {
+            let op = if a[1].is_null() {
+                None
+            } else {
+                Some(match a[1].as_str().unwrap() {
+                    "Exists" => SubQueryOper::Exists,
+                    "Any" => SubQueryOper::Any,
+                    "Some" => SubQueryOper::Some,
+                    "All" => SubQueryOper::All,
+                    x => panic!("subquery oper {x}"),
+                })
+            };
+            SimpleExpr::SubQuery(op, Box::new(SubQueryStatement::SelectStatement(crate::stmt::select(&a[2]))))
+        }
+        "m" => method(a),
+        _ => panic!("expr kind {k}"),
+    }
+}
+
+fn func(name: &str, args: &J) -> FunctionCall {
+    let xs = exprs(args);
+    let first = || xs[0].clone();
+    match name {
+        "max" => Func::max(first()),
+        "min" => Func::min(first()),
+        "sum" => Func::sum(first()),
+        "avg" => Func::avg(first()),
+        "abs" => Func::abs(first()),
+        "count" => Func::count(first()),
+        "count_distinct" => Func::count_distinct(first()),
+        "char_length" => Func::char_length(first()),
+        "lower" => Func::lower(first()),
+        "upper" => Func::upper(first()),
+        "bit_and" => Func::bit_and(first()),
+        "bit_or" => Func::bit_or(first()),
+        "round" => Func::round(first()),
+        "md5" => Func::md5(first()),
+        "greatest" => Func::greatest(xs),
+        "least" => Func::least(xs),
+        "coalesce" => Func::coalesce(xs),
+        "if_null" => Func::if_null(xs[0].clone(), xs[1].clone()),
+        "random" => Func::random(),
+        n if n.starts_with("cust:") => Func::cust(Alias::new(&n[5..])).args(xs),
+        _ => panic!("func {name}"),
+    }
+}
+
+fn method(a: &[J]) -> SimpleExpr {
+    let meth = a[1].as_str().unwrap();
+    let recv = expr(&a[2]);
+    let r = &a[3..];
+    match meth {
+        "between" => ExprTrait::between(recv, expr(&r[0]), expr(&r[1])),
+        "not_between" => ExprTrait::not_between(recv, expr(&r[0]), expr(&r[1])),
+        "like" | "not_like" => {
+            let mut le = LikeExpr::new(jstring(&r[0]));
+            if r.len() > 1 && !r[1].is_null() {
+                le = le.escape(char::from_u32(r[1].as_u64().unwrap() as u32).unwrap());
+            }
+            if meth == "like" {
+                ExprTrait::like(recv, le)
+            } else {
+                ExprTrait::not_like(recv, le)
+            }
+        }
+        "is_in" => ExprTrait::is_in(recv, exprs(&r[0])),
+        "is_not_in" => ExprTrait::is_not_in(recv, exprs(&r[0])),
+        "in_subquery" => ExprTrait::in_subquery(recv, crate::stmt::select(&r[0])),
+        "not_in_subquery" => ExprTrait::not_in_subquery(recv, crate::stmt::select(&r[0])),
+        "cast_as" => ExprTrait::cast_as(recv, Alias::new(jstring(&r[0]))),
+        "as_enum" => ExprTrait::as_enum(recv, Alias::new(jstring(&r[0]))),
+        "not" => ExprTrait::not(recv),
+        "is_null" => ExprTrait::is_null(recv),
+        "is_not_null" => ExprTrait::is_not_null(recv),
+        "eq" => ExprTrait::eq(recv, expr(&r[0])),
+        "ne" => ExprTrait::ne(recv, expr(&r[0])),
+        "gt" => ExprTrait::gt(recv, expr(&r[0])),
+        "gte" => ExprTrait::gte(recv, expr(&r[0])),
+        "lt" => ExprTrait::lt(recv, expr(&r[0])),
+        "lte" => ExprTrait::lte(recv, expr(&r[0])),
+        "add" => ExprTrait::add(recv, expr(&r[0])),
+        "sub" => ExprTrait::sub(recv, expr(&r[0])),
+        "mul" => ExprTrait::mul(recv, expr(&r[0])),
+        "div" => ExprTrait::div(recv, expr(&r[0])),
+        "modulo" => ExprTrait::modulo(recv, expr(&r[0])),
+        "left_shift" => ExprTrait::left_shift(recv, expr(&r[0])),
+        "right_shift" => ExprTrait::right_shift(recv, expr(&r[0])),
+        "and" => ExprTrait::and(recv, expr(&r[0])),
+        "or" => ExprTrait::or(recv, expr(&r[0])),
+        "is" => ExprTrait::is(recv, expr(&r[0])),
+        "is_not" => ExprTrait::is_not(recv, expr(&r[0])),
+        "bit_and" => ExprTrait::bit_and(recv, expr(&r[0])),
+        "bit_or" => ExprTrait::bit_or(recv, expr(&r[0])),
+        "binary" => ExprTrait::binary(recv, binoper(&r[0]), expr(&r[1])),
+        "equals" => ExprTrait::equals(recv, colref(&r[0])),
+        "not_equals" => ExprTrait::not_equals(recv, colref(&r[0])),
+        _ => panic!("method {meth}"),
+    }
+}
+
+pub fn cond(j: &J) -> Condition {
+    let a = j.as_array().unwrap();
+    let k = a[0].as_str().unwrap();
+    if k == "any" || k == "all" {
+        let mut c = if k == "any" { Condition::any() } else { Condition::all() };
+        for m in a[2].as_array().unwrap() {
+            if m.is_null() {
+                c = c.add_option(None::<SimpleExpr>);
+                continue;
+            }
+            let mk = m[0].as_str().unwrap();
+            if mk == "any" || mk == "all" {
+                c = c.add(cond(m));
+            } else if mk == "opt" {
+                c = c.add_option(Some(expr(&m[1])));
+            } else {
+                c = c.add(expr(m));
+            }
+        }
+        if a[1].as_bool().unwrap_or(false) {
+            c = c.not();
+        }
+        c
+    } else {
+        expr(j).into_condition()
+    }
+}
+
+pub fn backend_of(req: &J) -> &str {
+    req["backend"].as_str().unwrap()
+}
+
+fn render_expr_with<B: QueryBuilder>(b: B, e: &SimpleExpr, params: bool, ph: (&str, bool)) -> J {
+    if params {
+        let mut w = SqlWriterValues::new(ph.0, ph.1);
+        b.prepare_simple_expr(e, &mut w);
+        let (sql, vals) = w.into_parts();
+        json!({"sql": cps(&sql), "values": vals.0.iter().map(value_json).collect::<Vec<_>>()})
+    } else {
+        let mut s = String::new();
+        b.prepare_simple_expr(e, &mut s);
+        json!({"sql": cps(&s)})
+    }
+}
+
+pub fn handle(op: &str, req: &J) -> J {
+    match op {
+        "value_to_string" => {
+            let v = value(&req["value"]);
+            let s = match backend_of(req) {
+                "mysql" => MysqlQueryBuilder.value_to_string(&v),
+                "postgres" => PostgresQueryBuilder.value_to_string(&v),
+                "sqlite" => SqliteQueryBuilder.value_to_string(&v),
+                b => panic!("backend {b}"),
+            };
+            json!({"sql": cps(&s)})
+        }
+        "render_expr" => {
+            let e = expr(&req["expr"]);
+            let params = req["mode"].as_str() == Some("params");
+            match backend_of(req) {
+                "mysql" => render_expr_with(MysqlQueryBuilder, &e, params, ("?", false)),
+                "postgres" => render_expr_with(PostgresQueryBuilder, &e, params, ("$", true)),
+                "sqlite" => render_expr_with(SqliteQueryBuilder, &e, params, ("?", false)),
+                b => panic!("backend {b}"),
+            }
+        }
+        "fmt_float" => {
+            let bits = req["bits"].as_u64().unwrap();
+            let s = if req["ty"].as_str() == Some("f32") { format!("{}", f32::from_bits(bits as u32)) } else { format!("{}", f64::from_bits(bits)) };
+            json!({"s": s})
+        }
+        _ => crate::stmt::handle(op, req),
+    }
 }
